@@ -690,6 +690,13 @@ def run_all(cx):
         except Unsupported as e:
             problems.append((f, 'analysis does not cover this construct: %s at %s' % (e, e.where)))
             continue
+        except (RecursionError, LookupError, AttributeError, TypeError, ArithmeticError, AssertionError, ValueError) as e:
+            # a shape of code the interpreter was not written for: not covered, reported as such (see common.guarded)
+            import traceback
+            tb = traceback.extract_tb(e.__traceback__)
+            at = '%s:%d' % (tb[-1].filename.rsplit('/', 1)[-1], tb[-1].lineno) if tb else '?'
+            problems.append((f, 'analysis does not cover this construct: internal %s at %s: %s' % (type(e).__name__, at, str(e)[:120])))
+            continue
         analyses.append((f, it, ret, st, args))
         extra_closure_steps(cx, f, it, ret, st, args, problems)
         for lp in it.loops:
